@@ -333,6 +333,40 @@ theorem rowpath_sum_partial (k : Nat) (ws : List Int) :
     simp [AggState.result, Val.withInt, sumInts]
 
 
+/-! ### the STRUCTURAL hash join (keys compared with `==` only, NULL = NULL): what the executors did
+before the `fix:` commit.  Kept as an auxiliary: the executors of Model/Exec.lean are related to it
+in Lemmas/ExecNull.lean (same machinery on the NULL-free rows plus the padded NULL-key rows). -/
+
+def hjProbeS (padRight : Bool) (rk : List (Row → Val)) (nL : Nat) :
+    List Row → List HEntry → List HEntry × List Row
+  | [], m => (m, [])
+  | r :: rs, m =>
+    let k := keyOf rk r
+    match hmLookup k m with
+    | some e =>
+      let (m', out) := hjProbeS padRight rk nL rs (hmMark k m)
+      (m', e.rows.map (· ++ r) ++ out)
+    | none =>
+      let (m', out) := hjProbeS padRight rk nL rs m
+      (m', (if padRight then [nulls nL ++ r] else []) ++ out)
+
+def hashJoinS (t : JoinType) (lk rk : List (Row → Val)) (nL nR : Nat) (Ls Rs : List Chunk) : List Chunk :=
+  let m := hmBuild lk (flat Ls)
+  let padRight := t == .rightOuter || t == .fullOuter
+  let padLeft := t == .leftOuter || t == .fullOuter
+  let (m', out) := hjProbeS padRight rk nL (flat Rs) m
+  let rest := if padLeft then
+      (m'.filter (fun e => !e.matched)).flatMap (fun e => e.rows.map (· ++ nulls nR))
+    else []
+  emit (out ++ rest)
+
+def hashSemiJoinS (anti : Bool) (lk rk : List (Row → Val)) (Ls Rs : List Chunk) : List Chunk :=
+  let keys := (flat Rs).map (keyOf rk)
+  Ls.map (fun c => c.filter (fun l => keys.contains (keyOf lk l) != anti))
+
+def KeysComparableS (lk rk : List (Row → Val)) (L R : List Row) : Prop :=
+  ∀ l ∈ L, ∀ r ∈ R, (keyOf lk l == keyOf rk r) = holds (keysEq3 (keyOf lk l) (keyOf rk r))
+
 /-! ### hash joins -/
 
 theorem flatMap_congr' {α β} (f g : α → List β) (L : List α) (h : ∀ l ∈ L, f l = g l) :
@@ -393,7 +427,7 @@ theorem any_congr' {α} (f g : α → Bool) (R : List α) (h : ∀ r ∈ R, f r 
     rw [List.any_cons, List.any_cons, h a List.mem_cons_self, ih (fun r hr => h r (List.mem_cons_of_mem _ hr))]
 
 theorem hash_semi_key (lk rk : List (Row → Val)) (nL : Nat) (L R : List Row)
-    (hlen : ∀ l ∈ L, l.length = nL) (hk : KeysComparable lk rk L R) (l : Row) (hl : l ∈ L) :
+    (hlen : ∀ l ∈ L, l.length = nL) (hk : KeysComparableS lk rk L R) (l : Row) (hl : l ∈ L) :
     (R.map (keyOf rk)).contains (keyOf lk l) =
       !(matchesOf (equiOn nL lk rk (fun _ => some true)) l R).isEmpty := by
   rw [contains_map_key, matches_isEmpty, Bool.not_not]
@@ -402,13 +436,13 @@ theorem hash_semi_key (lk rk : List (Row → Val)) (nL : Nat) (L R : List Row)
   rw [equiOn_split nL lk rk l r (hlen l hl)]
   exact hk l hl r hr
 
-/-- hash semi join = spec semi join (hence = nested-loop semi join) under KeysComparable. -/
+/-- hash semi join = spec semi join (hence = nested-loop semi join) under KeysComparableS. -/
 theorem hash_semi_eq_spec_partial (lk rk : List (Row → Val)) (nL : Nat) (Ls Rs : List Chunk)
     (hlen : ∀ l ∈ flat Ls, l.length = nL)
-    (hk : KeysComparable lk rk (flat Ls) (flat Rs)) :
-    flat (hashSemiJoin false lk rk Ls Rs) =
+    (hk : KeysComparableS lk rk (flat Ls) (flat Rs)) :
+    flat (hashSemiJoinS false lk rk Ls Rs) =
       semiJoin (equiOn nL lk rk (fun _ => some true)) (flat Ls) (flat Rs) := by
-  unfold hashSemiJoin semiJoin
+  unfold hashSemiJoinS semiJoin
   rw [flat_map_filter]
   apply List.filter_congr
   intro l hl
@@ -417,10 +451,10 @@ theorem hash_semi_eq_spec_partial (lk rk : List (Row → Val)) (nL : Nat) (Ls Rs
 
 theorem hash_anti_eq_spec_partial (lk rk : List (Row → Val)) (nL : Nat) (Ls Rs : List Chunk)
     (hlen : ∀ l ∈ flat Ls, l.length = nL)
-    (hk : KeysComparable lk rk (flat Ls) (flat Rs)) :
-    flat (hashSemiJoin true lk rk Ls Rs) =
+    (hk : KeysComparableS lk rk (flat Ls) (flat Rs)) :
+    flat (hashSemiJoinS true lk rk Ls Rs) =
       antiJoin (equiOn nL lk rk (fun _ => some true)) (flat Ls) (flat Rs) := by
-  unfold hashSemiJoin antiJoin
+  unfold hashSemiJoinS antiJoin
   rw [flat_map_filter]
   apply List.filter_congr
   intro l hl
@@ -447,14 +481,14 @@ theorem rowsOf_mark (k k' : List Val) (m : List HEntry) : rowsOf k (hmMark k' m)
       · simp only [h2, Bool.false_eq_true, if_false]; exact ih
 
 theorem probe_out (pr : Bool) (rk : List (Row → Val)) (nL : Nat) (R : List Row) (m : List HEntry) :
-    (hjProbe pr rk nL R m).2 = R.flatMap (fun r =>
+    (hjProbeS pr rk nL R m).2 = R.flatMap (fun r =>
       match rowsOf (keyOf rk r) m with
       | some rows => rows.map (· ++ r)
       | none => if pr then [nulls nL ++ r] else []) := by
   induction R generalizing m with
   | nil => rfl
   | cons r rs ih =>
-    unfold hjProbe
+    unfold hjProbeS
     simp only [List.flatMap_cons]
     cases h : hmLookup (keyOf rk r) m with
     | none =>
@@ -526,9 +560,9 @@ theorem rowsOf_build (lk : List (Row → Val)) (L : List Row) (k : List Val) :
 
 /-- what the inner hash join emits, before any hypothesis: the pairs with STRUCTURALLY equal keys. -/
 theorem hashjoin_inner_rows (lk rk : List (Row → Val)) (nL nR : Nat) (Ls Rs : List Chunk) :
-    (flat (hashJoin .inner lk rk nL nR Ls Rs)).Perm
+    (flat (hashJoinS .inner lk rk nL nR Ls Rs)).Perm
       ((flat Ls).flatMap (fun l => ((flat Rs).filter (fun r => keyOf lk l == keyOf rk r)).map (l ++ ·))) := by
-  unfold hashJoin
+  unfold hashJoinS
   simp only [show (JoinType.inner == JoinType.rightOuter || JoinType.inner == JoinType.fullOuter) = false from rfl,
     show (JoinType.inner == JoinType.leftOuter || JoinType.inner == JoinType.fullOuter) = false from rfl,
     Bool.false_eq_true, if_false, List.append_nil]
@@ -548,11 +582,11 @@ theorem hashjoin_inner_rows (lk rk : List (Row → Val)) (nL nR : Nat) (Ls Rs : 
   rw [h]
   exact cross_swap_perm2 (fun l r => l ++ r) (fun l r => keyOf lk l == keyOf rk r) (flat Ls) (flat Rs)
 
-/-- hash join = spec (= nested-loop join, `nl_eq_spec_inner`) under KeysComparable. -/
+/-- hash join = spec (= nested-loop join, `nl_eq_spec_inner`) under KeysComparableS. -/
 theorem hash_eq_spec_inner_partial (lk rk : List (Row → Val)) (nL nR : Nat) (Ls Rs : List Chunk)
     (hlen : ∀ l ∈ flat Ls, l.length = nL)
-    (hk : KeysComparable lk rk (flat Ls) (flat Rs)) :
-    (flat (hashJoin .inner lk rk nL nR Ls Rs)).Perm
+    (hk : KeysComparableS lk rk (flat Ls) (flat Rs)) :
+    (flat (hashJoinS .inner lk rk nL nR Ls Rs)).Perm
       (joinRel .inner (equiOn nL lk rk (fun _ => some true)) nL nR (flat Ls) (flat Rs)) := by
   refine (hashjoin_inner_rows lk rk nL nR Ls Rs).trans (Perm.of_eq ?_)
   unfold joinRel innerJoin matchesOf
@@ -578,7 +612,7 @@ theorem flatMap_ite_singleton {α β} (c : α → Bool) (f : α → β) (R : Lis
 /-- what the probe phase emits, as a bag: the structural inner join plus (for right/full joins) the
 right rows whose key is not in the table, padded. -/
 theorem probe_out_perm (pr : Bool) (lk rk : List (Row → Val)) (nL : Nat) (L R : List Row) :
-    ((hjProbe pr rk nL R (hmBuild lk L)).2).Perm
+    ((hjProbeS pr rk nL R (hmBuild lk L)).2).Perm
       (L.flatMap (fun l => (R.filter (fun r => keyOf lk l == keyOf rk r)).map (l ++ ·)) ++
         (if pr then (R.filter (fun r => (L.filter (fun l => keyOf lk l == keyOf rk r)).isEmpty)).map (nulls nL ++ ·) else [])) := by
   rw [probe_out]
@@ -613,7 +647,7 @@ theorem filter_isEmpty_eq_not_any {α} (p : α → Bool) (L : List α) : (L.filt
     · simp
 
 theorem matchedBy_keys (lk rk : List (Row → Val)) (nL : Nat) (L R : List Row)
-    (hlen : ∀ l ∈ L, l.length = nL) (hk : KeysComparable lk rk L R) (r : Row) (hr : r ∈ R) :
+    (hlen : ∀ l ∈ L, l.length = nL) (hk : KeysComparableS lk rk L R) (r : Row) (hr : r ∈ R) :
     (L.filter (fun l => keyOf lk l == keyOf rk r)).isEmpty =
       !matchedBy (equiOn nL lk rk (fun _ => some true)) L r := by
   unfold matchedBy
@@ -626,7 +660,7 @@ theorem matchedBy_keys (lk rk : List (Row → Val)) (nL : Nat) (L R : List Row)
   rw [this, filter_isEmpty_eq_not_any]
 
 theorem structural_inner_eq_spec (lk rk : List (Row → Val)) (nL : Nat) (L R : List Row)
-    (hlen : ∀ l ∈ L, l.length = nL) (hk : KeysComparable lk rk L R) :
+    (hlen : ∀ l ∈ L, l.length = nL) (hk : KeysComparableS lk rk L R) :
     L.flatMap (fun l => (R.filter (fun r => keyOf lk l == keyOf rk r)).map (l ++ ·)) =
       innerJoin (equiOn nL lk rk (fun _ => some true)) L R := by
   unfold innerJoin matchesOf
@@ -641,13 +675,13 @@ theorem structural_inner_eq_spec (lk rk : List (Row → Val)) (nL : Nat) (L R : 
 theorem filter_congr_mem {α} (p q : α → Bool) (L : List α) (h : ∀ a ∈ L, p a = q a) : L.filter p = L.filter q :=
   List.filter_congr h
 
-/-- RIGHT OUTER hash join = spec under KeysComparable. -/
+/-- RIGHT OUTER hash join = spec under KeysComparableS. -/
 theorem hash_eq_spec_right_outer_partial (lk rk : List (Row → Val)) (nL nR : Nat) (Ls Rs : List Chunk)
     (hlen : ∀ l ∈ flat Ls, l.length = nL)
-    (hk : KeysComparable lk rk (flat Ls) (flat Rs)) :
-    (flat (hashJoin .rightOuter lk rk nL nR Ls Rs)).Perm
+    (hk : KeysComparableS lk rk (flat Ls) (flat Rs)) :
+    (flat (hashJoinS .rightOuter lk rk nL nR Ls Rs)).Perm
       (joinRel .rightOuter (equiOn nL lk rk (fun _ => some true)) nL nR (flat Ls) (flat Rs)) := by
-  unfold hashJoin
+  unfold hashJoinS
   simp only [show (JoinType.rightOuter == JoinType.rightOuter || JoinType.rightOuter == JoinType.fullOuter) = true from rfl,
     show (JoinType.rightOuter == JoinType.leftOuter || JoinType.rightOuter == JoinType.fullOuter) = false from rfl,
     Bool.false_eq_true, if_false, List.append_nil]
@@ -1025,18 +1059,18 @@ theorem nomark_tbl (D : List (List Val)) (rows) (flag) (k : List Val) (hk : D.co
   simp [this]
 
 theorem probe_fst_cons (pr : Bool) (rk : List (Row → Val)) (nL : Nat) (r : Row) (rs : List Row) (m : List HEntry) :
-    (hjProbe pr rk nL (r :: rs) m).1 =
-      (hjProbe pr rk nL rs (if (hmLookup (keyOf rk r) m).isSome then hmMark (keyOf rk r) m else m)).1 := by
-  rw [hjProbe]
+    (hjProbeS pr rk nL (r :: rs) m).1 =
+      (hjProbeS pr rk nL rs (if (hmLookup (keyOf rk r) m).isSome then hmMark (keyOf rk r) m else m)).1 := by
+  rw [hjProbeS]
   cases hmLookup (keyOf rk r) m <;> simp
 
 /-- matched flags after the probe phase: a key is matched iff some right row carries it. -/
 theorem probe_tbl (pr : Bool) (rk : List (Row → Val)) (nL : Nat) (D : List (List Val)) (hD : NoDup D) (rows)
     (R : List Row) (flag : List Val → Bool) :
-    (hjProbe pr rk nL R (tbl D rows flag)).1 =
+    (hjProbeS pr rk nL R (tbl D rows flag)).1 =
       tbl D rows (fun d => flag d || R.any (fun r => d == keyOf rk r)) := by
   induction R generalizing flag with
-  | nil => simp [hjProbe]
+  | nil => simp [hjProbeS]
   | cons r rs ih =>
     rw [probe_fst_cons]
     have hstep : (if (hmLookup (keyOf rk r) (tbl D rows flag)).isSome then hmMark (keyOf rk r) (tbl D rows flag)
@@ -1157,7 +1191,7 @@ theorem group_perm_filter {α K} [BEq K] [LawfulBEq K] (f : α → K) (q : K →
 /-- the unmatched tail of a left / full hash join, as a bag: the left rows whose key no right row
 carries (structurally), padded. -/
 theorem hashjoin_rest_perm (pr : Bool) (lk rk : List (Row → Val)) (nL nR : Nat) (L R : List Row) :
-    ((((hjProbe pr rk nL R (hmBuild lk L)).1).filter (fun e => !e.matched)).flatMap
+    ((((hjProbeS pr rk nL R (hmBuild lk L)).1).filter (fun e => !e.matched)).flatMap
         (fun e => e.rows.map (· ++ nulls nR))).Perm
       ((L.filter (fun l => (R.filter (fun r => keyOf lk l == keyOf rk r)).isEmpty)).map (· ++ nulls nR)) := by
   rw [hmBuild_struct, probe_tbl pr rk nL _ (noDup_dedup _)]
@@ -1177,7 +1211,7 @@ theorem hashjoin_rest_perm (pr : Bool) (lk rk : List (Row → Val)) (nL nR : Nat
   rw [filter_isEmpty_eq_not_any]
 
 theorem leftUnmatched_keys (lk rk : List (Row → Val)) (nL nR : Nat) (L R : List Row)
-    (hlen : ∀ l ∈ L, l.length = nL) (hk : KeysComparable lk rk L R) :
+    (hlen : ∀ l ∈ L, l.length = nL) (hk : KeysComparableS lk rk L R) :
     (L.filter (fun l => (R.filter (fun r => keyOf lk l == keyOf rk r)).isEmpty)).map (· ++ nulls nR) =
       leftUnmatched (equiOn nL lk rk (fun _ => some true)) nR L R := by
   unfold leftUnmatched matchesOf
@@ -1191,7 +1225,7 @@ theorem leftUnmatched_keys (lk rk : List (Row → Val)) (nL nR : Nat) (L R : Lis
   exact hk l hl r hr
 
 theorem rightUnmatched_keys (lk rk : List (Row → Val)) (nL : Nat) (L R : List Row)
-    (hlen : ∀ l ∈ L, l.length = nL) (hk : KeysComparable lk rk L R) :
+    (hlen : ∀ l ∈ L, l.length = nL) (hk : KeysComparableS lk rk L R) :
     (R.filter (fun r => (L.filter (fun l => keyOf lk l == keyOf rk r)).isEmpty)).map (nulls nL ++ ·) =
       rightUnmatched (equiOn nL lk rk (fun _ => some true)) nL L R := by
   unfold rightUnmatched
@@ -1202,12 +1236,12 @@ theorem rightUnmatched_keys (lk rk : List (Row → Val)) (nL : Nat) (L R : List 
 
 theorem flat_append (a b : List Chunk) : flat (a ++ b) = flat a ++ flat b := by simp [flat]
 
-/-- LEFT OUTER hash join = spec under KeysComparable. -/
+/-- LEFT OUTER hash join = spec under KeysComparableS. -/
 theorem hash_eq_spec_left_outer_partial (lk rk : List (Row → Val)) (nL nR : Nat) (Ls Rs : List Chunk)
-    (hlen : ∀ l ∈ flat Ls, l.length = nL) (hk : KeysComparable lk rk (flat Ls) (flat Rs)) :
-    (flat (hashJoin .leftOuter lk rk nL nR Ls Rs)).Perm
+    (hlen : ∀ l ∈ flat Ls, l.length = nL) (hk : KeysComparableS lk rk (flat Ls) (flat Rs)) :
+    (flat (hashJoinS .leftOuter lk rk nL nR Ls Rs)).Perm
       (joinRel .leftOuter (equiOn nL lk rk (fun _ => some true)) nL nR (flat Ls) (flat Rs)) := by
-  unfold hashJoin
+  unfold hashJoinS
   simp only [show (JoinType.leftOuter == JoinType.rightOuter || JoinType.leftOuter == JoinType.fullOuter) = false from rfl,
     show (JoinType.leftOuter == JoinType.leftOuter || JoinType.leftOuter == JoinType.fullOuter) = true from rfl, if_true]
   rw [flat_emit]
@@ -1219,12 +1253,12 @@ theorem hash_eq_spec_left_outer_partial (lk rk : List (Row → Val)) (nL nR : Na
   unfold joinRel
   exact (Perm.append h1 h2).trans (leftJoin_perm_decomp _ nR _ _).symm
 
-/-- FULL OUTER hash join = spec under KeysComparable. -/
+/-- FULL OUTER hash join = spec under KeysComparableS. -/
 theorem hash_eq_spec_full_outer_partial (lk rk : List (Row → Val)) (nL nR : Nat) (Ls Rs : List Chunk)
-    (hlen : ∀ l ∈ flat Ls, l.length = nL) (hk : KeysComparable lk rk (flat Ls) (flat Rs)) :
-    (flat (hashJoin .fullOuter lk rk nL nR Ls Rs)).Perm
+    (hlen : ∀ l ∈ flat Ls, l.length = nL) (hk : KeysComparableS lk rk (flat Ls) (flat Rs)) :
+    (flat (hashJoinS .fullOuter lk rk nL nR Ls Rs)).Perm
       (joinRel .fullOuter (equiOn nL lk rk (fun _ => some true)) nL nR (flat Ls) (flat Rs)) := by
-  unfold hashJoin
+  unfold hashJoinS
   simp only [show (JoinType.fullOuter == JoinType.rightOuter || JoinType.fullOuter == JoinType.fullOuter) = true from rfl,
     show (JoinType.fullOuter == JoinType.leftOuter || JoinType.fullOuter == JoinType.fullOuter) = true from rfl, if_true]
   rw [flat_emit]
